@@ -86,7 +86,7 @@ func CheckRecRules(r *verifsim.Run, t *Trace, p RecParams) {
 				sig = "announced-without-start"
 			}
 			r.Violate("C04", "C04.announce", sig, "event %d: RecordingStarted announced=%v, the motion sink accepted a start during this event=%v; calls: %s", i, e.Started, startOK, t.CallString(SinkMotion, i, i+1))
-			return
+			break // the rules below still speak for their own properties
 		}
 		if e.Ended != stop {
 			sig := "end-not-announced"
@@ -94,7 +94,7 @@ func CheckRecRules(r *verifsim.Run, t *Trace, p RecParams) {
 				sig = "announced-without-end"
 			}
 			r.Violate("C03", "C03.announce", sig, "event %d: RecordingEnded announced=%v, the recording was ended during this event=%v; calls: %s", i, e.Ended, stop, t.CallString(SinkMotion, i, i+1))
-			return
+			break // the rules below still speak for their own properties
 		}
 	}
 
